@@ -33,7 +33,7 @@ CHECKS = {
              "of every arm compared after every step.",
         ref="7 (C02)"),
     "C03": dict(
-        text="Lean 4 proof (full for exact metrics): radius_exact (selected rows = exactly those within the radius, boundary included), "
+        text="Lean 4 proof (full for exact metrics): runHist_hist (the stored history after any facade history is exactly the rows of the accepted training calls since the last fit), radius_exact (selected rows = exactly those within the radius, boundary included), "
              "knn_override_valid (an alternative tie-break is accepted only if it is a valid set of k nearest rows), nhood_from_scratch "
              "(the reused worker copy behaves like a fresh policy fit on the selected rows - via fit_discards), NaN invariant for empty "
              "neighbourhoods across add_arm/remove_arm. Correspondence with radii on realised distances and ties at k; twin against a "
@@ -57,7 +57,7 @@ CHECKS = {
              "orders, n_jobs x backend twins, query batches of 2^k+1 rows.",
         ref="7 (C05)"),
     "C06": dict(
-        text="Lean 4 proof (full, exact arithmetic): fit_partialFit_append - (s.fit b1).partialFit b2 = s.fit (b1 ++ b2) as an "
+        text="Lean 4 proof (full, exact arithmetic): facade_incremental_eq_batch (MAB.fit then any accepted MAB.partial_fit calls = one fit on the concatenation, through the facade); fit_partialFit_append - (s.fit b1).partialFit b2 = s.fit (b1 ++ b2) as an "
              "equality of whole policy states (statistics, expectations, Softmax / Popularity shares, statuses, models, counters), "
              "every policy kind, with or without binarizer; chunked_eq_batch_full / incremental_eq_batch_full for every chunking "
              "from every reachable state; whole bandit under the neighbourhood policies: radius_chunked_eq_batch / "
@@ -68,7 +68,7 @@ CHECKS = {
         ref="7 (C06)"),
     "C07": dict(
         text="Lean 4 proof (full): fit_discards - fit(D) on any state equals fit(D) on any state with the same configuration and "
-             "arms, in particular a fresh one (fit_after_history_eq_fresh); fit_then_predictExp_congr (same outputs and draws "
+             "arms, in particular a fresh one (fit_after_history_eq_fresh; facade_fit_discards for any facade history); fit_then_predictExp_congr (same outputs and draws "
              "whatever was learned or drawn before); facade level impFit_neighbors_congr (stored history), impFit_lsh_congr (planes "
              "drawn from the same stream position, tables rebuilt), impFit_clusters_congr (labels, every cluster policy), "
              "impFit_tree_congr (leaf stores), impFit_none_congr. Tied by correspondence on refit scenarios and refit-vs-fresh twins "
@@ -150,7 +150,7 @@ CHECKS = {
              "snapshotted byte-for-byte around each call; __convert_context on Series is compared with the executable rule.",
         ref="7 (C18)"),
     "C19": dict(
-        text="Lean 4 proof (partial, largest runtime share): copy_bisimilar (equal state => equal behaviour under every operation "
+        text="Lean 4 proof (partial, largest runtime share): copy_any_time (a copy taken after any history answers every continuation call by call as the original), copy_bisimilar (equal state => equal behaviour under every operation "
              "sequence), copy_independent (World model: a duplicate of everything reachable cannot influence or be influenced). That "
              "deepcopy / pickle deliver such a duplicate is sampled: deepcopy and pickle protocols 2..5 at random points of random "
              "histories (incl. scale=True scalers, binarizers), restore in a fresh interpreter, every continuation compared.",
